@@ -225,13 +225,16 @@ class HarnessResult:
         self.wall_s = 0.0
         self.replays = []
         self.functions = set()
+        self.infeasible_completed = 0
+        self.witnessed_paths = 0
 
     def to_json(self):
         return {"name": self.name, "paths": self.paths, "killed": self.killed, "unsupported": self.unsupported,
                 "errors": self.errors, "covers": sorted(self.covers), "stats": self.stats,
                 "axioms": sorted(self.axioms), "wall_s": round(self.wall_s, 3),
                 "obligations": [o.to_json() for o in self.obligations], "replays": self.replays,
-                "functions": sorted(self.functions)}
+                "functions": sorted(self.functions),
+                "witnessed_paths": self.witnessed_paths, "infeasible_completed": self.infeasible_completed}
 
 
 def run_harness(fn, name=None, cfg=None, solver_timeout_ms=10000, max_paths=20000, use_cvc5=True, verbose=False):
@@ -294,7 +297,18 @@ def run_harness(fn, name=None, cfg=None, solver_timeout_ms=10000, max_paths=2000
         interp = Interp(ctx, cfg)
         try:
             interp.call(fn, [], {})
-            res.paths += 1
+            # vacuity guard: the completed path must be satisfiable (or at least not refutable)
+            ctx.solver.set("timeout", 3000)
+            fr = ctx.solver.check()
+            if fr == z3.unsat:
+                res.killed += 1
+                res.infeasible_completed += 1
+                n_here = sum(1 for o in res.obligations if o.path == res.paths)
+                res.obligations = [o for o in res.obligations if o.path != res.paths]
+            else:
+                if fr == z3.sat:
+                    res.witnessed_paths += 1
+                res.paths += 1
         except PathKilled:
             res.killed += 1
         except PyRaise as pr:
